@@ -443,7 +443,9 @@ def run(P, rep, tier):
     r161(P, rep)
     r165(P, rep)
     r166(P, rep)
-    r166_forms(P, rep)
+    from ..lib_types import r_atomic_builtin_operands
+    rep.rule('R16.7', 'add_type converts the value operand of the exchange / compare-and-swap builtins to the type of the atomic object for every arithmetic operand type and gives the exchange the object\'s type: the value the indivisible instruction stores is the converted operand (a floating operand left unconverted is never moved into the register the instruction uses)', floor=200)
+    r_atomic_builtin_operands(P, rep, 'R16.7')
 
 
 def r_atomic_operand_type(P, rep, rule):
